@@ -331,7 +331,7 @@ theorem instF_ok {f : Nat} {lib : Lib} {c P : Path} {outer : List MMod} {dims : 
       (∀ m ∈ outer, MMod.headIn (ms.map (·.comp.name)) m = true) ∧ memberEqsF f' lib c = .ok eqs ∧
       mapE (instStep (elemOf f' lib) (instF f' lib) P outer dims) ms = .ok rs ∧
       r = ((rs.map (·.1)).flatten,
-           (rs.map (·.2)).flatten ++ eqs.map fun e => { scope := P, lhs := e.1, rhs := e.2 }) := by
+           (rs.map (·.2)).flatten ++ eqs.map fun e => { scope := P, eq := e }) := by
   cases f with
   | zero => simp [instF] at h
   | succ f' =>
@@ -484,7 +484,7 @@ theorem inst_nodup {f : Nat} {lib : Lib} {c P : Path} {outer : List MMod} {dims 
 
 /-! ## equations -/
 
-theorem memberEqsF_ok {f : Nat} {lib : Lib} {p : Path} {es : List (Expr × Expr)} (h : memberEqsF f lib p = .ok es) :
+theorem memberEqsF_ok {f : Nat} {lib : Lib} {p : Path} {es : List Eqn} (h : memberEqsF f lib p = .ok es) :
     ∃ f' d inh, f = f' + 1 ∧ lib.find p = some d ∧
       mapE (inheritEqStep (memberEqsF f' lib)) d.exts = .ok inh ∧ es = inh.flatten ++ d.eqs := by
   cases f with
@@ -500,16 +500,16 @@ theorem memberEqsF_ok {f : Nat} {lib : Lib} {p : Path} {es : List (Expr × Expr)
         cases h
         exact ⟨f', d, inh, rfl, hd, hi, rfl⟩
 
-theorem inheritEqStep_ok {rec : Path → Except Err (List (Expr × Expr))} {tm : Ty × List Mod}
-    {l : List (Expr × Expr)} (h : inheritEqStep rec tm = .ok l) : ∃ b, tm.1 = .cls b ∧ rec b = .ok l := by
+theorem inheritEqStep_ok {rec : Path → Except Err (List Eqn)} {tm : Ty × List Mod}
+    {l : List Eqn} (h : inheritEqStep rec tm = .ok l) : ∃ b, tm.1 = .cls b ∧ rec b = .ok l := by
   unfold inheritEqStep at h
   split at h
   · cases h
   · rename_i b hb
     exact ⟨b, hb, h⟩
 
-theorem memberEqs_sound {f : Nat} {lib : Lib} {p : Path} {es : List (Expr × Expr)} (h : memberEqsF f lib p = .ok es)
-    {e : Expr × Expr} (he : e ∈ es) : MemberEq lib p e := by
+theorem memberEqs_sound {f : Nat} {lib : Lib} {p : Path} {es : List Eqn} (h : memberEqsF f lib p = .ok es)
+    {e : Eqn} (he : e ∈ es) : MemberEq lib p e := by
   induction f generalizing p es e with
   | zero => simp [memberEqsF] at h
   | succ f ih =>
@@ -524,8 +524,8 @@ theorem memberEqs_sound {f : Nat} {lib : Lib} {p : Path} {es : List (Expr × Exp
       exact .inh hd this (ih hrec hel)
     · exact .own hd he
 
-theorem memberEqs_complete {lib : Lib} {p : Path} {e : Expr × Expr} (he : MemberEq lib p e) :
-    ∀ {f : Nat} {es : List (Expr × Expr)}, memberEqsF f lib p = .ok es → e ∈ es := by
+theorem memberEqs_complete {lib : Lib} {p : Path} {e : Eqn} (he : MemberEq lib p e) :
+    ∀ {f : Nat} {es : List Eqn}, memberEqsF f lib p = .ok es → e ∈ es := by
   induction he with
   | own hd he =>
     intro f es h
@@ -543,7 +543,7 @@ theorem memberEqs_complete {lib : Lib} {p : Path} {e : Expr × Expr} (he : Membe
 
 theorem inst_eqs_sound {f : Nat} {lib : Lib} {c P : Path} {outer : List MMod} {dims : List Nat}
     {r : List Var × List IEq} (h : instF f lib c P outer dims = .ok r) {e : IEq} (he : e ∈ r.2) :
-    ∃ q c', e.scope = P ++ q ∧ InstAt lib c q c' ∧ MemberEq lib c' (e.lhs, e.rhs) := by
+    ∃ q c', e.scope = P ++ q ∧ InstAt lib c q c' ∧ MemberEq lib c' e.eq := by
   induction f generalizing c P outer dims r e with
   | zero => simp [instF] at h
   | succ f ih =>
@@ -562,10 +562,10 @@ theorem inst_eqs_sound {f : Nat} {lib : Lib} {c P : Path} {outer : List MMod} {d
     · obtain ⟨x, hx, rfl⟩ := List.mem_map.mp he
       exact ⟨[], c, by simp, .here c, memberEqs_sound heqs hx⟩
 
-theorem inst_eqs_complete {lib : Lib} {c q c' : Path} (hi : InstAt lib c q c') {x : Expr × Expr}
+theorem inst_eqs_complete {lib : Lib} {c q c' : Path} (hi : InstAt lib c q c') {x : Eqn}
     (hx : MemberEq lib c' x) :
     ∀ {f : Nat} {P : Path} {outer : List MMod} {dims : List Nat} {r : List Var × List IEq},
-      instF f lib c P outer dims = .ok r → ({ scope := P ++ q, lhs := x.1, rhs := x.2 } : IEq) ∈ r.2 := by
+      instF f lib c P outer dims = .ok r → ({ scope := P ++ q, eq := x } : IEq) ∈ r.2 := by
   induction hi with
   | here c =>
     intro f P outer dims r h
